@@ -1341,7 +1341,7 @@ class t2data(object):
             if line.strip():
                 [subsection['ntype'], blank,
                  subsection['no'], subsection['del']] = infile.parse_string(line, 'xyz2')
-                if subsection['del'] == 0:
+                if not subsection['del']: # zero or blank
                     nlines = int(ceil(subsection['no'] / 8.))
                     deli = []
                     for i in range(nlines):
@@ -1357,7 +1357,7 @@ class t2data(object):
         outfile.write_values([deg], 'xyz1')
         for subsection in section[1:]:
             outfile.write_value_line(subsection, 'xyz2')
-            if subsection['del'] == 0:
+            if not subsection['del']: # zero or blank
                 nlines = int(ceil(subsection['no'] / 8.))
                 for i in range(nlines):
                     i1, i2 = i * 8, min((i + 1) * 8, subsection['no'])
